@@ -1,25 +1,43 @@
-(* C04: (A) + (B) put together: the statements of the property. *)
+(* C04: (A) + (B) + the instance form + dumps_total put together: the statements of the property. *)
 From BP Require Import Base.Prelude Model.Types Model.Object Model.Eq Model.Encode Model.WellFormed Model.Json.
-From BP Require Import Proofs.C04Def Proofs.C04ScalarP Proofs.C04ObjP Proofs.C04RtP4.
+From BP Require Import Proofs.C04Def Proofs.C04ScalarP Proofs.C04ElemP Proofs.C04ObjP Proofs.C04RtP4 Proofs.C04InstP Proofs.C04DumpsP.
 
-Lemma class_rt sc cs (text : bool) m :
+Lemma good_parts sc m : good sc m = true -> in_range sc m = true /\ oneof_ok sc m = true.
+Proof.
+  unfold good. intros G. apply andb_prop in G as [G _]. apply andb_prop in G as [G _]. apply andb_prop in G as [A B]. auto.
+Qed.
+
+Lemma both_forms sc cs (text : bool) m :
   wf_schema sc = true -> keys_ok cs sc = true -> good sc m = true ->
   exists m', from_dict_cls sc (ocls m) (tr text (to_dict cs false sc m)) = Ok m' /\
+             from_dict_inst sc (new sc (ocls m)) (tr text (to_dict cs false sc m)) = Ok m' /\
              obj_eq sc m' m = true /\ enc_obj sc m' = enc_obj sc m.
 Proof.
-  intros W K G. exists (norm_obj sc m). split.
+  intros W K G. exists (norm_obj sc m). split; [|split].
   - exact (from_to_dict_norm sc cs text W K m G).
+  - exact (inst_from_to_dict_norm sc cs text W K m G).
   - exact (norm_faithful sc W m G).
 Qed.
+
+Lemma dumps_total_main sc cs m :
+  wf_schema sc = true -> in_range sc m = true -> oneof_ok sc m = true -> dumpsable (to_dict cs false sc m) = true.
+Proof. intros W R O. exact (dumps_total sc cs W m R O). Qed.
 
 Lemma dict_rt sc cs m :
   wf_schema sc = true -> keys_ok cs sc = true -> good sc m = true ->
   exists m', from_dict_cls sc (ocls m) (to_dict cs false sc m) = Ok m' /\
+             from_dict_inst sc (new sc (ocls m)) (to_dict cs false sc m) = Ok m' /\
              obj_eq sc m' m = true /\ enc_obj sc m' = enc_obj sc m.
-Proof. exact (class_rt sc cs false m). Qed.
+Proof. exact (both_forms sc cs false m). Qed.
 
 Lemma text_rt_rt sc cs m :
   wf_schema sc = true -> keys_ok cs sc = true -> good sc m = true ->
-  exists m', from_dict_cls sc (ocls m) (text_rt (to_dict cs false sc m)) = Ok m' /\
+  exists m', json_rt_cls cs false sc m = Ok m' /\
+             json_rt_inst cs false sc m (new sc (ocls m)) = Ok m' /\
              obj_eq sc m' m = true /\ enc_obj sc m' = enc_obj sc m.
-Proof. exact (class_rt sc cs true m). Qed.
+Proof.
+  intros W K G. destruct (good_parts sc m G) as [R O].
+  destruct (both_forms sc cs true m W K G) as [m' [A [B C]]]. exists m'.
+  unfold json_rt_cls, json_rt_inst, dumps_loads. rewrite (dumps_total sc cs W m R O). cbn [bind].
+  split; [exact A|]. split; [exact B|exact C].
+Qed.
